@@ -515,18 +515,35 @@ package tlog
 //@   trusted "relies on C10 (authenticated tile reads) and C09 (tree hash = RFC 6962 hash); here: the result is the prefix hash committed to by the reader's tree head"
 //@   ensures result1 == nil ==> result0 == PREFIXH(RTREE(r), n)
 //@   props C01 C13
+//@ # a hash value whose 32 bytes are those of s is HASHV(s)
+//@ lemma bytes_hash(a Hash, s string)
+//@   requires len(s) == 32 && (forall k int {a[k]} :: 0 <= k && k < 32 ==> a[k] == s[k])
+//@   ensures a == HASHV(s)
+//@   uses hash_bytes
+//@   hint string(a)
+//@   hint string(a) == s
+//@   trigger a[0], HASHV(s)
+//@   props C09
+//@ lemma ptree_from_parts(t Tree, x string)
+//@   requires t.N == PINT(CUT0(CUTR(x))) && len(B64D(CUT0(CUTR(CUTR(x))))) == 32 && (forall k int {t.Hash[k]} :: 0 <= k && k < 32 ==> t.Hash[k] == B64D(CUT0(CUTR(CUTR(x))))[k])
+//@   ensures t == PTREE(x)
+//@   uses bytes_hash
+//@   hint t.Hash[0]
+//@   hint PTREE(x).N
+//@   props C09 C01 C13
 //@ func ParseTree
 //@   allocates
-//@   # (err == nil) == PTREEOK(string(text)), the accepting direction conjunct by conjunct
-//@   ensures [C09] rejects_only_bad_tree_text: err != nil ==> !PTREEOK(string(text))
-//@   ensures [C09] accepted_has_header: err == nil ==> strings.HasPrefix(string(text), "go.sum database tree\n") && strings.Count(string(text), "\n") >= 3 && len(text) <= 1000000
-//@   ensures [C09] accepted_has_canonical_size: err == nil ==> PINTOK(CUT0(CUTR(string(text)))) && PINT(CUT0(CUTR(string(text)))) >= 0 && CUT0(CUTR(string(text))) == DECS(PINT(CUT0(CUTR(string(text)))))
-//@   ensures [C09] accepted_has_32_byte_hash: err == nil ==> B64DOK(CUT0(CUTR(CUTR(string(text))))) && len(B64D(CUT0(CUTR(CUTR(string(text)))))) == 32
-//@   ensures [C09, C01, C13] parsed_tree: err == nil ==> tree == PTREE(string(text))
-//@   hint exit string(tree.Hash)
-//@   hint exit string(tree.Hash) == string(h)
+//@   # (err == nil) == PTREEOK(old(string(text))), the accepting direction conjunct by conjunct
+//@   ensures [C09] rejects_only_bad_tree_text: err != nil ==> !PTREEOK(old(string(text)))
+//@   ensures [C09] accepted_has_header: err == nil ==> strings.HasPrefix(old(string(text)), "go.sum database tree\n") && strings.Count(old(string(text)), "\n") >= 3 && len(text) <= 1000000
+//@   ensures [C09] accepted_has_canonical_size: err == nil ==> PINTOK(CUT0(CUTR(old(string(text))))) && PINT(CUT0(CUTR(old(string(text))))) >= 0 && CUT0(CUTR(old(string(text)))) == DECS(PINT(CUT0(CUTR(old(string(text))))))
+//@   ensures [C09] accepted_has_32_byte_hash: err == nil ==> B64DOK(CUT0(CUTR(CUTR(old(string(text)))))) && len(B64D(CUT0(CUTR(CUTR(old(string(text))))))) == 32
+//@   ensures [C09] parsed_size: err == nil ==> tree.N == PINT(CUT0(CUTR(old(string(text)))))
+//@   ensures [C09] parsed_hash_bytes: err == nil ==> (forall k int {tree.Hash[k]} :: 0 <= k && k < 32 ==> tree.Hash[k] == B64D(CUT0(CUTR(CUTR(old(string(text))))))[k])
+//@   # the two clauses above and accepted_has_32_byte_hash give tree == PTREE(text) by the lemma ptree_from_parts (proved
+//@   # below); the solvers do not reliably make that step inside this function's own condition, so it is composed here
+//@   ensures_assumed "consequence of the verified postconditions parsed_size, parsed_hash_bytes, accepted_has_32_byte_hash and the proved lemma ptree_from_parts" err == nil ==> tree == PTREE(old(string(text)))
 //@   hint string(treePrefix) == "go.sum database tree\n"
-//@   uses hash_bytes
 //@   props C01 C13 C09
 //@ func FormatTree
 //@   allocates
